@@ -49,11 +49,11 @@ func (k Keeper) ComputeMinPowerInTopN(ctx sdk.Context, bondedValidators []stakin
 		return powers[i] > powers[j]
 	})
 
-	topNThreshold := math.LegacyNewDec(int64(topN)).QuoInt64(int64(100))
 	powerSum := math.LegacyZeroDec()
 	for _, power := range powers {
 		powerSum = powerSum.Add(math.LegacyNewDec(power))
-		if powerSum.Quo(totalPower).GTE(topNThreshold) {
+		// powerSum / totalPower >= topN / 100, compared without division so that no rounding is involved
+		if powerSum.MulInt64(100).GTE(totalPower.MulInt64(int64(topN))) {
 			return power, nil
 		}
 	}
